@@ -107,7 +107,7 @@ func VerifC13_ReturnToRequestedURL() {
 	host := vn.String("req-host", 4)
 	target := vn.String("req-target", vn.Bound("path-bytes", 6)+2)
 	resp1 := &envoy.CheckResponse{}
-	err := env.h.Process(context.Background(), kitHTTPReq(scheme, host, target, map[string]string{}), resp1)
+	err := env.h.Process(context.Background(), kitHTTPReq(scheme, host, target, kitClientHeaders()), resp1)
 	vn.Assert("C13/step1-redirect", vn.And(err == nil, resp1.GetDeniedResponse() != nil, kitNoCache(resp1)))
 	sid := env.gen.sessionID
 	st := store.slots[sid]
